@@ -83,7 +83,7 @@ SCENARIOS: Dict[str, List[Tuple[str, List[List[Any]]]]] = {
     # message values that are easy to mistake for "nothing" or for framing: the empty string, "0", a leading blank, the
     # "EOF" marker the bundled example applications append (the communication log trims it, the channel must not)
     "S10": [("A", [["connect", "a", "A", "B", 0, P], ["send", "a", ""], ["send", "a", "0"], ["send", "a", " EOF1,1EOF"]]),
-            ("B", [["connect", "b", "B", "A", 0, P], ["nb", "b"], ["recv", "b"], ["drain_to", "b", 3], ["nb", "b"]])],
+            ("B", [["connect", "b", "B", "A", 0, P], ["nb", "b"], ["recv", "b"], ["recvm", "b", 4, 3], ["recvm", "b", 1, 3], ["nb", "b"]])],
     # the less used entry points share the hub with send/recv: structured and silent, blocking and not
     # (one socket per kind: a structured message is a JSON string on the wire, the two kinds do not mix on one channel)
     "S11": [("A", [["connect", "a0", "A", "B", 0, P], ["connect", "a1", "A", "B", 1, P], ["sends", "a0", "h1", "p1"],
@@ -160,6 +160,13 @@ class Env:
             m = self.socks[op[1]].recv()
             self.got[op[1]] = self.got.get(op[1], 0) + 1
             log.append(("recv", op[1], m, t0, ex.now()))
+        elif k == "recvm":
+            # a size hint is given: the channel is message based, the message still arrives whole
+            # (like drain_to: only while fewer than op[3] messages were received on this socket)
+            if self.got.get(op[1], 0) < op[3]:
+                m = self.socks[op[1]].recv(maxsize=op[2])
+                self.got[op[1]] = self.got.get(op[1], 0) + 1
+                log.append(("recv", op[1], m, t0, ex.now()))
         elif k == "recvs":
             m = self.socks[op[1]].recv_structured()
             self.got[op[1]] = self.got.get(op[1], 0) + 1
